@@ -262,6 +262,8 @@ def build(seed, size, sop=None, pid="C25"):
     n = {"tiny": rng.randint(1, 3), "small": rng.randint(5, 25), "medium": rng.randint(30, 90),
          "large": rng.randint(10, 40), "huge": rng.randint(5, 20)}[size]
     _fill(rng, ds, n, 0, utf, [{"tiny": 1, "small": 4, "medium": 12, "large": 4, "huge": 2}[size]])
+    if not any(e.tag not in (0x00080016, 0x00080018) for e in ds):
+        ds.add_new(0x00100020, "LO", _text(rng, 1, 9))      # only size "empty" is empty
     if size in ("medium", "large", "huge") or (size == "small" and rng.random() < 0.3):
         # pixel-data-like bulk element (+ the image pixel module elements pydicom consults for ambiguous VRs)
         nbytes = {"small": rng.randint(0, 600), "medium": rng.randint(1000, 16000),
@@ -402,7 +404,7 @@ def diff(a, b, path=""):
 
 # ------------------------------------------------------------------------------------------------ files
 
-def file_meta_bytes(ts_uid, sop_class, sop_instance):
+def file_meta_bytes(ts_uid, sop_class, sop_instance, extra=0):
     meta = FileMetaDataset()
     meta.FileMetaInformationGroupLength = 0
     meta.FileMetaInformationVersion = b"\x00\x01"
@@ -411,6 +413,11 @@ def file_meta_bytes(ts_uid, sop_class, sop_instance):
     meta.TransferSyntaxUID = ts_uid
     meta.ImplementationClassUID = UID_ROOT + "0"
     meta.ImplementationVersionName = "VERIF_C25"
+    if extra >= 1:
+        meta.SourceApplicationEntityTitle = "VERIF_SRC"
+    if extra >= 2:
+        meta.PrivateInformationCreatorUID = UID_ROOT + "9"
+        meta.PrivateInformation = b"\x01\x02\x03" if extra == 2 else bytes(range(200))     # odd length: padded by pydicom
     fp = DicomBytesIO()
     fp.is_little_endian = True
     fp.is_implicit_VR = False
@@ -418,9 +425,10 @@ def file_meta_bytes(ts_uid, sop_class, sop_instance):
     return fp.getvalue()
 
 
-def write_file(path, stream, ts, sop_class, sop_instance):
+def write_file(path, stream, ts, sop_class, sop_instance, preamble=None, extra_meta=0):
     """DICOM File Format: 128-byte preamble, DICM, group 0002, then `stream` verbatim.  Returns the offset."""
-    head = b"\x00" * 128 + b"DICM" + file_meta_bytes(TS[ts], sop_class, sop_instance)
+    head = (preamble or b"\x00" * 128) + b"DICM" + file_meta_bytes(TS[ts], sop_class, sop_instance, extra_meta)
+    assert len(head) > 132 and head[128:132] == b"DICM"
     with open(path, "wb") as f:
         f.write(head)
         f.write(stream)
